@@ -400,7 +400,7 @@ func newWorld(rt *rapid.T, c *stats.Case, withNode bool, height int) *world {
 	// The factory's transaction-nonce counter starts far above anything the canonical lineage
 	// reaches (each Fork adds 1e6), so canonical and pre-confirmed transaction hashes never collide.
 	w.fac = gen.NewChain(u, gen.Opts{MaxTxs: 3, MaxEvents: 2})
-	for i := 0; i < 200; i++ {
+	for i := 0; i < 1000; i++ {
 		w.fac = w.fac.Fork(0)
 	}
 	return w
@@ -970,17 +970,19 @@ func (k *stateChecker) compare(where string, r core.StateReader, st *ref.State, 
 		inView := declared && cl.DeclaredAt >= viewFrom
 		d, err := r.Class(&h)
 		k.reads++
+		heldDef, isHeld := held[h]
 		switch {
+		case declared && isHeld:
+			// (also a Cairo-0 class the stale view re-declares on top of a new canonical chain that declared it already)
+			if err != nil || d == nil || d.Class != heldDef {
+				c.Violation("overlay-class", "%s: Class(%s) = %v, %v; the view's entry carries its definition in NewClasses", where, h.ShortString(), d, err)
+			}
 		case declared && !inView:
 			if err != nil || d == nil || d.At != cl.DeclaredAt || d.Class != cl.Def && mustJSON(d.Class) != mustJSON(cl.Def) {
 				c.Violation("overlay-class", "%s: Class(%s) = %v, %v; declared in the canonical chain at %d", where, h.ShortString(), d, err, cl.DeclaredAt)
 			}
 		case inView:
-			if def, ok := held[h]; ok {
-				if err != nil || d == nil || d.Class != def {
-					c.Violation("overlay-class", "%s: Class(%s) = %v, %v; the view's entry carries its definition in NewClasses", where, h.ShortString(), d, err)
-				}
-			} else if err == nil {
+			if err == nil {
 				if d.Class != cl.Def && mustJSON(d.Class) != mustJSON(cl.Def) {
 					c.Violation("overlay-class", "%s: Class(%s) returned a wrong definition", where, h.ShortString())
 				}
